@@ -117,7 +117,12 @@ def run(model, col, tier):
                   "the handler looks at both discriminators the VM uses (Scope and load/store)",
                   f"the handler ignores {'Store ' if not mentions_store else ''}{'Scope' if not mentions_scope else ''}: loads and stores / scopes are translated alike", GEN, h)
     # ---------------- R06.3 ------------------------------------------------------
+    from ..sem import expand_helpers as _eh063
+
     vb = gv.own_method("v_BinaryInstruction")
+    if vb is not None:
+        # read with private / static helpers of the generator in place (`__GetOperationType(bi)`, `__GetBinaryOpCodeName(..)`)
+        vb = _eh063(model, gv, vb, skip=("v_", "__PushValueOntoStack", "_GenerateWasmVisitor__PushValueOntoStack"))
     # the operator table: the dict display (local, class-level or module-level) whose keys are IR opcodes and whose values are strings
     opmap = opnode = None
     mapname = None
@@ -280,6 +285,16 @@ def run(model, col, tier):
               f"{detail}: a comparison's result type is int whatever it compares, so comparing floats emits i32.lt_s over f32 locals (invalid module) and uints compare as signed", GEN, vb)
     flag_names = {x.id for s_ in sif.body for n_ in ast.walk(s_) if isinstance(n_, (ast.If, ast.IfExp)) for x in ast.walk(n_.test) if isinstance(x, ast.Name)}
     uns = [v_ for fl in sorted(flag_names) for v_ in find_assign(vb, fl)]
+    # a literal given to the flag in the very block that selects a non-integer prefix (`operationType = "f32"; unsigned =
+    # False`) is never looked at: the suffix is only built for the i32 prefix (folded above)
+    inert = set()
+    for n_ in ast.walk(vb):
+        for fld_ in ("body", "orelse"):
+            blk = getattr(n_, fld_, None)
+            if isinstance(blk, list) and any(isinstance(s_, ast.Assign) and isinstance(s_.value, ast.Constant) and isinstance(s_.value.value, str) and s_.value.value != "i32" for s_ in blk):
+                inert |= {id(s_.value) for s_ in blk if isinstance(s_, ast.Assign) and isinstance(s_.targets[0], ast.Name) and s_.targets[0].id in flag_names
+                          and isinstance(s_.value, ast.Constant) and isinstance(s_.value.value, bool)}
+    uns = [u for u in uns if id(u) not in inert]
     col.check(bool(uns) and all(".Unsigned" in unparse(u) and (tname or f"{bip}.Type") in unparse(u) for u in uns), "R06.4", f"{GEN}::v_BinaryInstruction signedness source",
               "signedness comes from the same type as the operator prefix", f"signedness comes from {[unparse(u) for u in uns]}", GEN, vb)
     # ---------------- R06.5 ------------------------------------------------------
@@ -384,6 +399,7 @@ def run(model, col, tier):
 
     c19.check_signed(model, col, "R06.7")
     c19.check_encoder_shape(model, col, "R06.7")
+    c19.check_immediates_kept(model, col, "R06.7")
     # ---------------- R06.8 a memoised translation is keyed by everything it depends on -------
     from .. import memo
 
